@@ -311,30 +311,66 @@ def _run_property(prop, tier, seed, conf, binary, t0):
     known_lines = []
     infra = []
     try:
-        procs = []
-        for sh in range(nshards):
-            od = os.path.join(rundir, "s%d" % sh)
-            os.makedirs(od)
-            extra = dict(VERIF_TIER=tier, VERIF_SHARD=sh, VERIF_NSHARDS=nshards, VERIF_OUT=od,
-                         VERIF_SEED_EFFECTIVE=eff_seed(seed, sh), VERIF_ROOT=ROOT)
-            logf = open(os.path.join(od, "log"), "w")
-            cmd = [binary, "-test.run", conf["tests"] + "|^TestCorpus$", "-test.timeout", "0", "-test.v",
-                   "-rapid.seed", str(eff_seed(seed, sh)), "-rapid.nofailfile"]
-            extra["VERIF_CORPUS"] = prop if sh == 0 else ""
-            p = subprocess.Popen(cmd, cwd=os.path.join(ROOT, "checks"), env=env_for(extra), stdout=logf, stderr=subprocess.STDOUT)
-            procs.append((sh, od, p, logf))
+        def launch(shards, attempt):
+            ps = []
+            for sh in shards:
+                od = os.path.join(rundir, "s%d" % sh if attempt == 0 else "s%d-retry%d" % (sh, attempt))
+                os.makedirs(od)
+                extra = dict(VERIF_TIER=tier, VERIF_SHARD=sh, VERIF_NSHARDS=nshards, VERIF_OUT=od,
+                             VERIF_SEED_EFFECTIVE=eff_seed(seed, sh), VERIF_ROOT=ROOT)
+                if attempt > 0:
+                    # a hang report that did not reproduce came from a starved machine: run the shard
+                    # again with a longer limit per call instead of giving up on it
+                    extra["VERIF_HANG_SECS"] = 10 * 4 ** attempt
+                logf = open(os.path.join(od, "log"), "w")
+                cmd = [binary, "-test.run", conf["tests"] + "|^TestCorpus$", "-test.timeout", "0", "-test.v",
+                       "-rapid.seed", str(eff_seed(seed, sh)), "-rapid.nofailfile"]
+                extra["VERIF_CORPUS"] = prop if sh == 0 else ""
+                p = subprocess.Popen(cmd, cwd=os.path.join(ROOT, "checks"), env=env_for(extra), stdout=logf, stderr=subprocess.STDOUT)
+                ps.append((sh, od, p, logf))
+            return ps
+
         deadline = t0 + limit
         timed_out = False
-        for sh, od, p, logf in procs:
-            try:
-                p.wait(timeout=max(1, deadline - time.time()))
-            except subprocess.TimeoutExpired:
-                timed_out = True
-                p.kill()
-                p.wait()
-            logf.close()
+
+        def wait(ps):
+            nonlocal timed_out
+            for sh, od, p, logf in ps:
+                try:
+                    p.wait(timeout=max(1, deadline - time.time()))
+                except subprocess.TimeoutExpired:
+                    timed_out = True
+                    p.kill()
+                    p.wait()
+                logf.close()
+
+        procs = launch(range(nshards), 0)
+        wait(procs)
         if timed_out:
             infra.append("time budget of %ds exhausted (inconclusive)" % limit)
+        # shards whose only trouble was a hang / death report that does not reproduce are run again (twice at most)
+        for attempt in (1, 2):
+            again = []
+            for sh, od, p, logf in procs:
+                vfiles = sorted(glob.glob(os.path.join(od, "violations", "*.json")))
+                hangs = [vf for vf in vfiles if json.load(open(vf)).get("kind") == "hang"]
+                if timed_out or not hangs or len(hangs) != len(vfiles):
+                    continue
+                flaky = True
+                for vf in hangs:
+                    probe = os.path.join(od, "probe-%s" % os.path.basename(vf))
+                    shutil.copyfile(vf, probe)
+                    st, why = run_replay(binary, probe, limit=120)
+                    os.remove(probe)
+                    flaky = flaky and st != "reproduced"
+                if flaky:
+                    again.append(sh)
+            if not again:
+                break
+            log("hang report(s) of shard(s) %s did not reproduce: running them again with a longer limit per call" % again)
+            redo = launch(again, attempt)
+            wait(redo)
+            procs = [q for q in procs if q[0] not in again] + redo
         # a plain (non-race) binary is not needed for replays: the same binary replays
         for sh, od, p, logf in procs:
             rc = p.returncode
